@@ -588,10 +588,17 @@ def multi_call_stage(run, n):
         f = gen_filter(r, ctx, r.choice([1, 2, 3]), tags)
         fj, nfj = '{"txnFilter":%s}' % filter_json(f), '{"txnFilter":%s}' % filter_json(("not", f))
         seq = r.sample([None, fj, nfj, None, fj, nfj], r.randint(3, 6))
-        reqs.append({"conf": {"toml": J.make_toml(audit="true", hash="SHA-256")}, "inputs": [{"text": J.print_journal(ts)}],
-                     "multi_filters": seq})
+        reqs.append(multi_call_request(J.print_journal(ts), seq))
         metas.append(seq)
     res = harness_run(reqs)
+    judge_multi_call(run, reqs, metas, res)
+
+
+def multi_call_request(text, seq):
+    return {"conf": {"toml": J.make_toml(audit="true", hash="SHA-256")}, "inputs": [{"text": text}], "multi_filters": seq}
+
+
+def judge_multi_call(run, reqs, metas, res):
     for rq, seq, rr in zip(reqs, metas, res):
         if rr.get("stage") != "done" or "multi" not in rr:
             continue
@@ -634,13 +641,26 @@ def main(run):
 
 
 def replay(run, path):
-    j = json.load(open(path))
-    rp = j.get("replay", j)
-    print(json.dumps({k: rp[k] for k in rp if k in ("journal", "filter_json", "audit", "implementation_output")}, indent=1, ensure_ascii=False)[:6000])
+    """the stored journal + filter definition(s) through harness + c05_multi (process), or the stored sequence of filters on
+    one loaded journal (multi-call stage); replays of the T04 text stage go to t04.replay (common.replay_begin)"""
+    j, rp, rc = replay_begin(run, path)
+    if rc is not None:
+        return rc
+    if not isinstance(rp.get("journal"), str) or not (isinstance(rp.get("filters"), list) or isinstance(rp.get("sequence_of_filters"), list)):
+        return replay_print(j)
+    print(j.get("what"))
+    print(json.dumps({k: rp[k] for k in rp if k in ("journal", "filter_json", "audit", "implementation_output", "sequence_of_filters")}, indent=1, ensure_ascii=False)[:6000])
     harness_build()
-    proof_stage(run, "C05", extra_targets=["corr/C05_corr.vo"])
-    g = {"journal": rp["journal"], "filters": [to_ast(x) for x in rp["filters"]], "audit": rp.get("audit", False), "tags": [], "src": "replay"}
-    process(run, [g], verbose=True)
-    for what, _, found in run.violations:
-        print("REPRODUCED: %s%s" % (what, "" if found else " (no failing input)"))
-    return 1 if run.violations else 0
+    if "filters" in rp:
+        corr_build("C05")
+        g = {"journal": rp["journal"], "filters": [to_ast(x) for x in rp["filters"]], "audit": rp.get("audit", False), "tags": [], "src": "replay"}
+        process(run, [g], verbose=True)
+        if g.get("skip"):
+            print(g["skip"])
+        why = "the stored filter definition(s) select the set they describe, size and checksum describe it, and the model agrees"
+    else:
+        seq = list(rp["sequence_of_filters"])
+        rq = multi_call_request(rp["journal"], seq)
+        judge_multi_call(run, [rq], [seq], harness_run([rq]))
+        why = "every set drawn from the loaded journal by the stored sequence of filters is reported with its own size and checksum"
+    return replay_verdict(run, path, j, why)
